@@ -51,9 +51,17 @@ def corrupt(rng, moves):
     return out, kind
 
 
-def pos_line(start, moves, four=False):
+def pos_line(start, moves, four=False, five=False, perm=None):
     if start != 'startpos' and four and start.split()[4:] == ['0', '1']:
         start = ' '.join(start.split()[:4])          # the same position as a 4-field FEN
+    elif start != 'startpos' and five and len(start.split()) == 6:
+        start = ' '.join(start.split()[:5])          # a 5-field FEN: half-move clock given, move number left to its default
+    if start != 'startpos' and perm is not None and len(start.split()[2]) >= 2:
+        f = start.split()
+        flags = list(f[2])
+        perm.shuffle(flags)                          # the castling flags in another order: the same rights
+        f[2] = ''.join(flags)
+        start = ' '.join(f)
     base = 'position startpos' if start == 'startpos' else 'position fen ' + start
     return base + (' moves ' + ' '.join(moves) if moves else '')
 
@@ -81,7 +89,7 @@ def make_session(rng, games):
             for k in range(0, len(moves) + 1, step):
                 lines.append(pos_line(start, moves[:k]))
         elif r < 0.5:
-            lines.append(pos_line(start, moves, four=rng.random() < 0.3))
+            lines.append(pos_line(start, moves, four=rng.random() < 0.3, five=rng.random() < 0.3, perm=rng if rng.random() < 0.3 else None))
         elif r < 0.85:
             bad, kind = corrupt(rng, moves)
             lines.append(pos_line(start, bad))
